@@ -8,8 +8,8 @@ import (
 	"testing/synctest"
 	"time"
 
-	"github.com/jcmturner/gokrb5/v8/keytab"
 	"github.com/jcmturner/gokrb5/v8/credentials"
+	"github.com/jcmturner/gokrb5/v8/keytab"
 	"github.com/jcmturner/gokrb5/v8/messages"
 	"github.com/jcmturner/gokrb5/v8/pac"
 	"github.com/jcmturner/gokrb5/v8/service"
@@ -189,6 +189,14 @@ func c01Defects() []defect {
 		{"kvno2", func(c *apCase, r *RNG) { c.kvno = 2 }},
 		{"tktkvno-absent", func(c *apCase, r *RNG) { c.tktKvno = 0 }},
 		{"tktkvno-unknown", func(c *apCase, r *RNG) { c.tktKvno = 9 }},
+		// key versions are 32-bit numbers: 258 is not 2
+		{"tktkvno=kvno+256", func(c *apCase, r *RNG) { c.kvno = 2; c.tktKvno = 258 }},
+		{"tktkvno=kvno+65536", func(c *apCase, r *RNG) { c.kvno = 1; c.tktKvno = 65537 }},
+		// names are octet strings: white space at their ends is part of them
+		{"cname-trailing-space", func(c *apCase, r *RNG) { c.cname = []string{"testuser1", "root "} }},
+		{"cname-leading-tab", func(c *apCase, r *RNG) { c.cname = []string{"\ttestuser1"} }},
+		{"cname-nbsp", func(c *apCase, r *RNG) { c.cname = []string{"testuser1", "root\u00a0"} }},
+		{"crealm-trailing-space", func(c *apCase, r *RNG) { c.crealm = "TEST.GOKRB5 " }},
 		{"tktetype", func(c *apCase, r *RNG) {
 			c.tktEtype = []int32{17, 18, 23, 16, 19, 20}[r.Intn(6)]
 			if c.tktEtype == c.et {
@@ -209,6 +217,12 @@ func c01Defects() []defect {
 		// key included) appended in the clear: nothing in the clear may stand in for what the key must open
 		{"wrongkey+cleartext-appended", func(c *apCase, r *RNG) { c.wrongKey = true; c.clearAppended = true }},
 		{"fliptkt+cleartext-appended", func(c *apCase, r *RNG) { c.flipTkt = r.Intn(4000); c.clearAppended = true }},
+		// a cleartext copy that adds what the sealed part does not hold (an address list), where the service
+		// requires one: absent fields of the sealed part stay absent
+		{"cleartext-appended-with-caddr+reqhost", func(c *apCase, r *RNG) {
+			c.clearAppended, c.clearCaddr = true, []types.HostAddress{v4}
+			c.reqHost, c.clientAddr = true, &v4
+		}},
 		// a renewable ticket is valid until its end time like any other (renew-till only limits what the KDC renews)
 		{"renewable", func(c *apCase, r *RNG) { c.renewable = true }},
 		{"renewable+end=now-d-1s", func(c *apCase, r *RNG) { c.renewable = true; c.endOff = -c.skew - time.Second }},
